@@ -189,6 +189,9 @@ def gen_workload(rng, tier):
         classes = [c for c, (_m, fmts, _cv) in sorted(INCOMPAT.items()) if fmt in fmts]
         if classes:
             w["defect"] = {"cls": rng.choice(classes), "frame": 0}
+            if w["defect"]["cls"] == "gen_contraction":
+                # SP (both orders), repeated and mixed generalized contractions
+                w["defect"]["variant"] = rng.choice([[0, 1], [1, 0], [0, 0], [0, 0, 0], [0, 2], [2, 1], [1, 1], None])
     return w
 
 
@@ -215,7 +218,10 @@ def _build_objs(w):
                 objs[j] = gen.apply_mod(objs[j], {"op": "set_none", "attr": a})
         elif d["cls"] in INCOMPAT:
             try:
-                objs[j] = gen.apply_mod(objs[j], INCOMPAT[d["cls"]][0])
+                mod = INCOMPAT[d["cls"]][0]
+                if d.get("variant"):
+                    mod = {"op": "gen_shell", "angmoms": d["variant"]}
+                objs[j] = gen.apply_mod(objs[j], mod)
                 info["incompat"] = d["cls"]
             except Exception:  # noqa: BLE001 - the mod does not fit this object: no defect applied
                 info["incompat"] = None
@@ -392,7 +398,9 @@ def judge(trace, rec, base):
             return out
         if exc is None and not failing_fired:
             # a dump that succeeds must have produced something that loads (two-sided oracle)
-            if not _reloads(w, rec):
+            if not _reloads(w, rec) and _plain_object_reloads(w):
+                # (only meaningful when the same object *without* the incompatibility writes a loadable file:
+                # whether every written file can be read back is C01's subject, not C08's)
                 out.append(_v("bad_success", f"dump of {rec['incompat']} object succeeded but the file does not load", trace, "incompat"))
             if w["allow_changes"] and convertible and "PrepareDumpWarning" not in rec["warnings"] and not rec["result_is_arg"]:
                 out.append(_v("silent_conversion", "converted object returned without PrepareDumpWarning", trace, "incompat"))
@@ -460,6 +468,14 @@ def _reloads(w, rec):
     return True
 
 
+def _plain_object_reloads(w):
+    w0 = copy.deepcopy(w)
+    w0["defect"] = None
+    w0["allow_changes"] = True
+    rec0 = run_once(w0, [])
+    return rec0["exc"] is None and _reloads(w0, rec0)
+
+
 def execute(trace):
     base = None
     if not trace.get("no_baseline"):
@@ -491,6 +507,14 @@ def _fault_positions(base, rng, tier):
         faults.append([{"kind": "raw_write_fail", "k": k, "errno": ERRS[(k + 1) % 3]}])
         faults.append([{"kind": "raw_short_write", "k": k, "n": rng.choice([1, 2, 7, 100])}])
     faults.append([{"kind": "close_fail", "errno": rng.choice(ERRS)}])
+    # the disk fills up after `capacity` bytes and stays full (every later write and the flush at close fail too)
+    total = len(base["bytes"] or b"")
+    caps = {0, 1, max(0, total - 1), total // 2}
+    for _ in range(4 if tier == "quick" else 24):
+        caps.add(rng.randint(0, max(0, total - 1)))
+    for cap in sorted(caps):
+        if cap < total:
+            faults.append([{"kind": "disk_full", "capacity": cap}])
     if nr >= 2:
         a, b = sorted(rng.sample(range(nr), 2))
         faults.append([{"kind": "raw_short_write", "k": a, "n": 1}, {"kind": "raw_write_fail", "k": b, "errno": "EIO"}])
@@ -607,7 +631,7 @@ def shrink(trace, still_fails):
 
 def coverage_extra(stats, tier):
     return {
-        "fault_kinds_configured": ["text_write_fail", "raw_write_fail", "raw_short_write", "close_fail",
+        "fault_kinds_configured": ["text_write_fail", "raw_write_fail", "raw_short_write", "close_fail", "disk_full (persistent)",
                                    "iter_raise (caller generator)", "short+fail combination"],
         "valid_workloads": sorted(stats.s.get("valid_workloads", [])),
         "simulated_time": "logical steps (LINE events inside iodata); iodata has no clock",
